@@ -283,6 +283,15 @@ func (f *Frame) lookupProgramVar(name string, env *specEnv) (Val, bool) {
 			continue
 		}
 		for i, in := range b.Instrs {
+			if phi, isPhi := in.(*ssa.Phi); isPhi && phi.Comment == name {
+				// a phi carrying the variable (e.g. the header phi of an earlier loop) is a definition too
+				if _, defined := f.vals[phi]; defined {
+					if best == nil || bestBlock.Dominates(b) && (bestBlock != b || i > bestIdx) {
+						best, bestBlock, bestIdx = phi, b, i
+					}
+				}
+				continue
+			}
 			dr, ok := in.(*ssa.DebugRef)
 			if !ok || dr.IsAddr {
 				continue
